@@ -6,8 +6,11 @@
       -> the generated task function's body        (captures locals() at entry)
 
 Nothing of taskiq is re-implemented here.  Besides the trip the driver reports, for the oracle and for the model's
-conversion table, the REAL answers of taskiq.compat.parse_obj_as for every (annotation of the signature, value on the
-wire) pair, CPython's own opinion about the call (inspect.Signature.bind with tokens) and get_type_hints' keys."""
+conversion table, pydantic's OWN answer for every (annotation of the signature, value on the wire) pair - asked of the
+library directly (pydantic.TypeAdapter(annotation).validate_python; pydantic.parse_obj_as on pydantic 1), NEVER through
+taskiq.compat.parse_obj_as: "converted to the annotated type when convertible" is pydantic's notion, and a table filled
+through /repo's wrapper would inherit whatever the wrapper does wrong (a lossy shortcut such as int(2.5)) on the expected
+side as well.  Also CPython's own opinion about the call (inspect.Signature.bind with tokens) and get_type_hints' keys."""
 import dataclasses
 import datetime
 import inspect
@@ -84,6 +87,20 @@ class _Default:
 
 
 DFLT = _Default()
+_ADAPTERS = {}
+
+
+def reference_parse(tn, value):
+    """pydantic's conversion of `value` to the annotation named `tn`, independent of /repo (see the module docstring).
+    Building the adapter may itself raise (annotation `X`: no schema) - like taskiq's wrapper, that happens at call time."""
+    if hasattr(pydantic, "TypeAdapter"):
+        ad = _ADAPTERS.get(tn)
+        if ad is None:
+            ad = _ADAPTERS[tn] = pydantic.TypeAdapter(ANNS[tn])
+        return ad.validate_python(value)
+    return pydantic.parse_obj_as(ANNS[tn], value)  # pragma: no cover  (pydantic 1)
+
+
 ANNS = {
     "int": int, "str": str, "float": float, "bool": bool, "List[int]": List[int], "Dict[str,int]": Dict[str, int],
     "Optional[int]": Optional[int], "Any": Any, "M1": M1, "M2": M2, "D1": D1, "D2": D2, "X": X,
@@ -296,7 +313,7 @@ async def trip(case):
     out["roundtrip_canon_eq"] = canon(loaded) == whole
     rest = lambda m: canon({k: getattr(m, k) for k in type(m).model_fields if k not in ("args", "kwargs")})  # noqa: E731
     out["roundtrip_rest_eq"] = rest(loaded) == rest(message)
-    # the real parse_obj_as on every (annotation in the signature, value on the wire)
+    # pydantic itself (not taskiq.compat) on every (annotation in the signature, value on the wire)
     table = []
     seen = set()
     for _, tn in hints:
@@ -307,7 +324,7 @@ async def trip(case):
                 continue
             seen.add(key)
             try:
-                table.append([tn, cv, "val", canon(parse_obj_as(ANNS[tn], v))])
+                table.append([tn, cv, "val", canon(reference_parse(tn, v))])
             except (ValueError, RuntimeError) as e:
                 table.append([tn, cv, "swallowed", type(e).__name__])
             except BaseException as e:  # noqa: BLE001
